@@ -15,7 +15,7 @@ SPEC = dict(
     technique="property-based testing (rapidcheck operation histories) with real sockets and link-time EAGAIN injection",
     rule=("history: <=48 operations over {dgram(peer,listener,size), dgram to a connect() session, send(session,size), "
           "connectViaListener, connect, close, burst (2-5 following operations without waiting), EAGAIN script for the next "
-          "engine sendto/send calls}; sizes include 1, 2, 1472, 1473, ioReadChunk-1, ioReadChunk, 65507; peers 127.0.0.1:p, "
+          "engine sendto/send calls}; sizes include 1, 2, 1472, 1473, ioReadChunk-1, ioReadChunk, 65507; listeners on 127.0.0.1 or '::' (dual stack), op alt (two peers alternate back to back); peers 127.0.0.1:p, "
           "127.0.0.2:p (same port), 127.0.0.1:q, 127.0.0.3:r; ET/LT, batching, ioReadChunk in {65536,65507,2048,1472}, "
           "maxWriteQueue in {1024,2,1}, maxSessions in {0,1,2,3,4} (a new peer refused at the cap is documented behaviour and only counted). idle: the same with idleTimeout=gcInterval=1 s and a 2.4 s phase in which only some "
           "peers keep sending. Non-trivial = >=2 open sessions for one peer address at some point, or a close of a session "
